@@ -514,6 +514,132 @@ func (g treeGen) val(depth int, docMode bool) hx.Sx {
 	}
 }
 
+// focused: an event over exactly the fields the tree-level configurations name, so that most cases
+// make the action do something (match, spawn, extract, hash, substitute)
+func (g treeGen) focused(doc bool) hx.Sx {
+	r := g.r
+	str := func() hx.Sx {
+		if doc {
+			return hx.L(hx.I(3), hx.S(hx.Pick(r, []string{"", "v", "some text", "q\"uote", "line\nbreak", "é", "xyz"})))
+		}
+		switch r.Intn(6) {
+		case 0:
+			return hx.L(hx.I(3), hx.S("2021-06-22 16:24:27 GMT [7291] => [3-1] client=c,db=d,user=u LOG:  listening on \"0.0.0.0\""))
+		case 1:
+			return hx.L(hx.I(3), hx.S(hx.Pick(r, []string{"xyz", "xz", "z", "yz", "xyzz", "zxy", "xy"})))
+		default:
+			return hx.L(hx.I(3), hx.S(g.str()))
+		}
+	}
+	leaf := func() hx.Sx {
+		switch r.Intn(8) {
+		case 0:
+			return hx.I(0)
+		case 1:
+			return hx.L(hx.I(1), hx.Bool(r.Bool()))
+		case 2:
+			return hx.L(hx.I(2), hx.S(hx.Pick(r, []string{"0", "1", "-7", "42", "1624379067"})))
+		default:
+			return str()
+		}
+	}
+	var arr func(depth int) hx.Sx
+	var obj func(keys []string, depth int) hx.Sx
+	val := func(depth int) hx.Sx {
+		switch k := r.Intn(10); {
+		case k < 5 || depth == 0:
+			return leaf()
+		case k < 8:
+			return obj([]string{"b", "c", "d", "e", "message", "level"}, depth-1)
+		default:
+			return arr(depth - 1)
+		}
+	}
+	arr = func(depth int) hx.Sx {
+		items := []hx.Sx{hx.I(4)}
+		for i := r.Intn(4); i > 0; i-- {
+			if r.Chance(2, 3) {
+				items = append(items, obj([]string{"message", "level", "b", "x"}, depth))
+			} else {
+				items = append(items, val(depth))
+			}
+		}
+		return hx.L(items...)
+	}
+	obj = func(keys []string, depth int) hx.Sx {
+		items := []hx.Sx{hx.I(5)}
+		ks := append([]string(nil), keys...)
+		shuffle(r, ks)
+		for _, k := range ks[:r.Intn(len(ks)+1)] {
+			items = append(items, hx.L(hx.S(k), val(depth)))
+		}
+		return hx.L(items...)
+	}
+	items := []hx.Sx{hx.I(5)}
+	ks := []string{"log", "message", "level", "a", "items", "hash", "t", "b"}
+	shuffle(r, ks)
+	for _, k := range ks[:r.Range(2, len(ks))] {
+		var v hx.Sx
+		switch {
+		case k == "a" && r.Chance(4, 5):
+			v = obj([]string{"b", "c", "e", "hash"}, 2)
+		case k == "items" && r.Chance(4, 5):
+			v = arr(2)
+		case r.Chance(1, 6):
+			v = val(2)
+		default:
+			v = leaf()
+		}
+		items = append(items, hx.L(hx.S(k), v))
+	}
+	return hx.L(items...)
+}
+
+// withField: the object tree t with the value v at the (object keys only) path, created if missing
+func withField(t hx.Sx, path []string, v hx.Sx) hx.Sx {
+	if len(path) == 0 {
+		return v
+	}
+	var items []hx.Sx
+	if hx.IsList(t) && len(hx.Items(t)) > 0 && hx.IsInt(hx.Items(t)[0]) && hx.Int(hx.Items(t)[0]) == 5 {
+		items = append(items, hx.Items(t)...)
+	} else {
+		items = []hx.Sx{hx.I(5)}
+	}
+	for i, kv := range items[1:] {
+		f := hx.Items(kv)
+		if hx.Str(f[0]) == path[0] {
+			items[i+1] = hx.L(f[0], withField(f[1], path[1:], v))
+			return hx.L(items...)
+		}
+	}
+	items = append(items, hx.L(hx.S(path[0]), withField(hx.L(hx.I(5)), path[1:], v)))
+	return hx.L(items...)
+}
+
+func sxStr(s string) hx.Sx { return hx.L(hx.I(3), hx.S(s)) }
+
+// the assumed shape of the regexp library's answers (hypotheses of c13_modify_re_total and
+// c13_parse_re2_total), re-checked on every case
+func reOracle(c *hmain.Ctx, src []byte, obs hx.Sx) {
+	it := hx.Items(obs)
+	nsub := int(hx.Int(it[0]))
+	ok := true
+	for _, m := range hx.Items(it[1]) {
+		ix := hx.Items(m)
+		if len(ix) != 2*(nsub+1) {
+			ok = false
+		}
+		for k := 0; k+1 < len(ix); k += 2 {
+			s, e := hx.Int(ix[k]), hx.Int(ix[k+1])
+			if !((s == -1 && e == -1) || (0 <= s && s <= e && e <= int64(len(src)))) {
+				ok = false
+			}
+		}
+	}
+	c.W.Oracle("regexp.FindAllSubmatchIndex: 2*(NumSubexp+1) entries per match, each pair -1/-1 or a range inside src", ok, hx.String(obs))
+}
+
 func genModels(c *hmain.Ctx) {
 	r := c.R
 	tg := treeGen{r}
@@ -584,7 +710,7 @@ func genModels(c *hmain.Ctx) {
 			for _, gs := range rc.groups {
 				for _, limit := range []int64{-1, 0, 1, 2} {
 					for _, sep := range []string{"", ","} {
-						c.Do("re-exhaustive", 33, hx.L(hx.S(rc.re), hx.Z(limit), hx.List(gs, hx.Z), hx.S(sep), hx.Bool(n%2 == 0), hx.S(s)), n > 0 && limit != 0 && len(gs) > 0)
+						reOracle(c, []byte(s), c.Do("re-exhaustive", 33, hx.L(hx.S(rc.re), hx.Z(limit), hx.List(gs, hx.Z), hx.S(sep), hx.Bool(n%2 == 0), hx.S(s)), n > 0 && limit != 0 && len(gs) > 0))
 					}
 				}
 			}
@@ -605,7 +731,7 @@ func genModels(c *hmain.Ctx) {
 			gs = hx.Pick(r, rc.groups)
 		}
 		s := hx.Pick(r, []string{"info: something happened", "re1 re2 re3 re4", "service=service-test-1 exec took 200ms", "message without matching re", "aabxb", "1234-5678 12 x", tg.str(), tg.str()})
-		c.Do("re-random", 33, hx.L(hx.S(rc.re), hx.Z(int64(r.Range(-1, 3))), hx.List(gs, hx.Z), hx.S(hx.Pick(r, []string{"", ",", "|", "--"})), hx.Bool(r.Bool()), hx.S(s)), len(gs) > 0)
+		reOracle(c, []byte(s), c.Do("re-random", 33, hx.L(hx.S(rc.re), hx.Z(int64(r.Range(-1, 3))), hx.List(gs, hx.Z), hx.S(hx.Pick(r, []string{"", ",", "|", "--"})), hx.Bool(r.Bool()), hx.S(s)), len(gs) > 0))
 	}
 
 	// ---- 36 hash normaliser tokenizer: exhaustive over the bracket / quote alphabet
@@ -663,15 +789,77 @@ func genModels(c *hmain.Ctx) {
 		`{"fields":[{"field":"items","format":"no","max_size":1},{"field":"log","format":"no","max_size":1000}],"result_field":"t.u.v"}`,
 	}
 	for i := 0; i < 700*c.Scale; i++ {
-		t := tg.tree(2, false)
-		c.Do("parse-re2-do", 34, hx.L(hx.S(hx.Pick(r, cfg34)), t), true)
-		c.Do("split-do", 37, hx.L(hx.Bool(r.Chance(1, 8)), hx.S(hx.Pick(r, cfg37)), tg.tree(3, false)), true)
-		c.Do("hash-do", 39, hx.L(hx.S(hx.Pick(r, cfg39)), t), true)
+		t := tg.focused(false)
+		if r.Chance(1, 5) {
+			t = tg.tree(2, false)
+		}
+		changed := func(name string, in hx.Sx, obs hx.Sx) {
+			it := hx.Items(obs)
+			out := hx.Items(it[len(it)-1])
+			if len(out) == 2 && hx.String(out[1]) != hx.String(in) {
+				c.W.Count(name + "_changed_the_tree")
+			} else {
+				c.W.Count(name + "_left_the_tree_alone")
+			}
+		}
+		{
+			k := r.Intn(len(cfg34))
+			pt := t
+			if r.Chance(2, 3) { // put something the expression matches where the configuration looks
+				switch k {
+				case 0:
+					pt = withField(t, []string{"log"}, sxStr(hx.Pick(r, []string{
+						"2021-06-22 16:24:27 GMT [7291] => [3-1] client=test_client,db=test_db,user=test_user LOG:  listening on IPv4 address",
+						"2021-06-22 16:24:27 GMT [1] => [2-3] client=,db=,user= HINT:  x"})))
+				case 1:
+					pt = withField(t, []string{"message"}, sxStr(hx.Pick(r, []string{"xyz", "xz", "z", "yz", "azb", "xyzxyz"})))
+				case 2:
+					pt = withField(t, []string{"a", "b"}, hx.Pick(r, []hx.Sx{sxStr("whole value"), sxStr(""), hx.L(hx.I(2), hx.S("42")), hx.I(0), hx.L(hx.I(1), hx.I(1))}))
+				default:
+					pt = withField(t, []string{"items"}, hx.L(hx.I(4), sxStr(hx.Pick(r, []string{"ab", "a", "abc", ""})), hx.I(0)))
+				}
+			}
+			o34 := c.Do("parse-re2-do", 34, hx.L(hx.S(cfg34[k]), pt), true)
+			i34 := hx.Items(o34)
+			c.W.Oracle("regexp.FindSubmatch: no match, or one entry per SubexpNames entry", len(hx.Items(i34[3])) == 0 || len(hx.Items(i34[3])) == len(hx.Items(i34[2])), hx.String(o34))
+			changed("parse_re2_do", pt, o34)
+		}
+		st := tg.focused(false)
+		if r.Chance(1, 2) {
+			var els []hx.Sx
+			els = append(els, hx.I(4))
+			for n := r.Range(1, 4); n > 0; n-- {
+				if r.Chance(3, 4) {
+					els = append(els, tg.tree(1, false))
+				} else {
+					els = append(els, tg.val(1, false))
+				}
+			}
+			st = withField(st, hx.Pick(r, [][]string{{"items"}, {"a", "b"}, {"a"}}), hx.L(els...))
+		}
+		so := hx.Items(hx.Items(c.Do("split-do", 37, hx.L(hx.Bool(r.Chance(1, 8)), hx.S(hx.Pick(r, cfg37)), st), true))[1])
+		if len(so) == 2 {
+			c.W.Count(fmt.Sprintf("split_do_result_%s_children_%d", hx.String(hx.Items(so[1])[0]), len(hx.Items(hx.Items(so[1])[1]))))
+		}
+		changed("hash_do", t, c.Do("hash-do", 39, hx.L(hx.S(hx.Pick(r, cfg39)), t), true))
 		// json_extract: the field holds a valid document (numbers are small canonical integers)
 		dt := tg.tree(1, false)
-		dit := hx.Items(dt)
-		dit = append(dit, hx.L(hx.S(hx.Pick(r, []string{"log", "message"})), hx.L(hx.I(3), hx.S(tg.doc(3)))))
-		c.Do("json-extract-do", 38, hx.L(hx.S(hx.Pick(r, cfg38)), hx.L(dit...)), true)
+		var dit []hx.Sx
+		for _, kv := range hx.Items(dt) { // drop the fields the document goes into
+			if hx.IsList(kv) && (hx.Str(hx.Items(kv)[0]) == "log" || hx.Str(hx.Items(kv)[0]) == "message") {
+				continue
+			}
+			dit = append(dit, kv)
+		}
+		docText := hx.JSONText(tg.focused(true))
+		if r.Chance(1, 6) {
+			docText = tg.doc(3)
+		}
+		dit = append(dit, hx.L(hx.S("log"), hx.L(hx.I(3), hx.S(docText))), hx.L(hx.S("message"), hx.L(hx.I(3), hx.S(docText))))
+		if r.Chance(1, 3) {
+			dit = append(dit, hx.L(hx.S("a"), hx.L(hx.I(5), hx.L(hx.S("b"), hx.L(hx.I(3), hx.S(docText))))))
+		}
+		changed("json_extract_do", hx.L(dit...), c.Do("json-extract-do", 38, hx.L(hx.S(hx.Pick(r, cfg38)), hx.L(dit...)), true))
 		// modify without regexp filters
 		var ops []hx.Sx
 		// ParseSubstitution looks for the first '|' in the whole remaining text: a field op without
@@ -704,6 +892,6 @@ func genModels(c *hmain.Ctx) {
 			ops = append(ops, hx.L(hx.I(1), hx.S(hx.Pick(r, []string{"message", "log", "a.b", "a", "level", "items.0", "nope"})), hx.L(fl...)))
 		}
 		target := hx.Pick(r, []string{"new", "message", "a.c", "a.b.c", "items.x", "level"})
-		c.Do("modify-do", 40, hx.L(hx.Bool(r.Chance(1, 3)), hx.S(target), hx.L(ops...), t), true)
+		changed("modify_do", t, c.Do("modify-do", 40, hx.L(hx.Bool(r.Chance(1, 3)), hx.S(target), hx.L(ops...), t), true))
 	}
 }
